@@ -94,6 +94,14 @@ pub fn dispatch(op: &str, req: &Value) -> Result<Value, String> {
         return crate::ops_common::c11(k, req);
     }
     #[cfg(feature = "common")]
+    if op == "c16:quote" {
+        let s = crate::arg_str(req, "s")?;
+        let q = ruma_common::http_headers::quote_ascii_string_if_required(&s);
+        let borrowed = matches!(q, std::borrow::Cow::Borrowed(_));
+        let inner = if q.len() >= 2 && q.starts_with('"') && q.ends_with('"') { Some(ruma_common::http_headers::unescape_string(&q[1..q.len() - 1])) } else { None };
+        return Ok(json!({"r": "ok", "q": q.as_ref(), "borrowed": borrowed, "token": ruma_common::http_headers::is_token_string(&q), "unquoted": inner}));
+    }
+    #[cfg(feature = "common")]
     if op == "c16:select" {
         return crate::ops_common::c16(req);
     }
